@@ -12,7 +12,7 @@ Section Windows.
 
   Definition quiet (e : env) : Prop := e_fault e = None /\ e_script e = [].
   Lemma call_quiet e what : e_fault e = None -> call e what = ({| e_script := e_script e; e_calls := e_calls e + 1; e_fault := None; e_trace := what :: e_trace e |}, true).
-  Proof. intros H. unfold call, tr. cbn. rewrite H. reflexivity. Qed.
+  Proof. intros H. unfold call, tr, faulty. cbn. rewrite H. reflexivity. Qed.
 
   (* Class A *)
   Theorem async_class_a_window_schedule d e data fport confirmed draws o :
